@@ -140,7 +140,10 @@ def main(tier):
             acc_u = 2.0**-24 if (int_operand or dtype in ("float16", "float32")) else u
             # (K+2) roundings of the accumulation + 2u for the dequantization rounding of the two operands (the reference
             # multiplies rounded dequantized values, the kernels exact codes) + 3u for scale product, output cast, bias add
-            bound = ((K + 2) * acc_u + 5 * u) * st["at_absref"] + 1e-30
+            # + the absolute rounding error of a result in the subnormal range of the output dtype (2 x half the smallest subnormal:
+            # the output cast and one product / scale step), which the relative terms do not cover
+            eta_out = {"float16": 2.0**-25, "bfloat16": 2.0**-134, "float32": 2.0**-150}[dtype]
+            bound = ((K + 2) * acc_u + 5 * u) * st["at_absref"] + 2 * eta_out + 1e-30
             if st["at_diff"] > bound:
                 what = f"{label}: differs from the product of the dequantized operands by {st['at_diff']:.4g} > accumulation bound {bound:.4g} (K={K}, {dtype})"
                 if dtype == "float16" and r.get("act_quantized") and 0 < r.get("scale_prod_min", 1) < 2.0**-14 and c["op"] in ("mm", "bmm"):
@@ -164,6 +167,9 @@ def main(tier):
             judge(st, "route " + name)
             if c.get("exact") and not st["bit_equal_to_linear"] and c.get("act") == "qint8" and c.get("wq") == "qint8" and c.get("in") == 1 and c.get("out", 1) > 1:
                 ck.violation(f"route {name} vs F.linear on exact operands: torch._int_mm with in_features=1 and a transposed weight returns garbage (F.linear itself is off by {r['maxdiff']:.4g})",
+                             {"case": cfg, "route": st, "linear": {k: r[k] for k in ("maxdiff", "refmax")}})
+            elif c.get("exact") and not st["bit_equal_to_linear"] and c["op"] == "linear" and dtype == "bfloat16" and c.get("act") == "float" and c.get("wq") == "qint8" and K % 4 == 0 and K % 16 != 0:
+                ck.violation(f"route {name} vs F.linear on exact operands: bfloat16 activations x int8 weights routed to torch._weight_int8pack_mm with in_features={K} (not a multiple of 16): the kernel returns garbage when it does not crash",
                              {"case": cfg, "route": st, "linear": {k: r[k] for k in ("maxdiff", "refmax")}})
             elif c.get("exact") and not st["bit_equal_to_linear"]:
                 ck.violation(f"route {name} and F.linear disagree on exact operands (every partial sum representable)", {"case": cfg, "route": st, "linear": {k: r[k] for k in ("maxdiff", "refmax")}})
